@@ -480,7 +480,7 @@ pub fn execute(sc: &Scenario, env: &Env) -> (Outcome, RunStats) {
         }
         let s = out.join("; ");
         if s.len() > 700 {
-            format!("{}…", &s[..700])
+            format!("{}…", s.chars().take(700).collect::<String>())
         } else {
             s
         }
